@@ -49,7 +49,7 @@ type OnMsg struct {
 // step's observable effect (at the upstream or at a handler), never for wall-clock time, except
 // for the one-sided settle interval when a subscriber is expected to join a dial in progress.
 type Step struct {
-	Op  string `json:"op"`            // sub | cancel | expire (the subscriber's own context deadline passes) | release (a blocked handler continues) | abandon (Key: tuple; cancel whoever is dialling it right now, never Sub) | send | ack | drop | idle | silence | ticks (Key = number of ping intervals to let pass)
+	Op  string `json:"op"`            // sub | cancel | expire (the subscriber's own context deadline passes) | release (a blocked handler continues) | abandon (Key: tuple; cancel whoever is dialling it right now, never an index >= Sub) | send | ack | drop | idle | silence | ticks (Key = number of ping intervals to let pass)
 	Sub int    `json:"sub,omitempty"` // sub, cancel, send
 	Key int    `json:"key,omitempty"` // ack, drop: tuple index
 }
